@@ -656,37 +656,93 @@ def check(pc, goal, timeout_ms, prefer=None):
             total += dt
             if r == z3.unsat:
                 return 'unsat', total, None, '%s-generalised:%d/%d' % (name, len(sub), len(pc))
-    if prefer is not None:
-        # contract-directed case analyses are MBQI territory: give that strategy a large slice before the round robin
-        r, dt, s = _run(prefer, pc, goal, timeout_ms * 0.6, zseed)
-        total += dt
-        if r == z3.unsat:
-            return 'unsat', total, None, prefer
-        if r == z3.sat:
-            return 'sat', total, s.model(), prefer
-    # all hypotheses: the strategies take turns with growing slices (the best one is not known in advance and they
-    # differ by an order of magnitude; iterative deepening costs at most ~2x the best strategy)
-    reasons = []
-    for rnd_no, frac in enumerate((0.04, 0.12, 0.40)):
+    # all hypotheses: the strategies run CONCURRENTLY, each in its own z3 context and thread (z3 releases the GIL while it
+    # solves).  Which strategy wins differs from obligation to obligation by an order of magnitude (MBQI for the contract-
+    # directed case analyses, E-matching for the frame conditions, ...); racing them makes the wall time that of the best one
+    # and keeps verdicts from flipping with the order of the attempts.
+    t0 = time.time()
+    r, model, reason = portfolio(pc, goal, timeout_ms, zseed)
+    total += time.time() - t0
+    if r == 'unsat':
+        return 'unsat', total, None, reason
+    if r == 'sat':
+        return 'sat', total, model, reason
+    t0 = time.time()
+    m = sample_refute(pc, goal, seed)
+    total += time.time() - t0
+    if m is not None:
+        return 'sat', total, m, 'evaluation'
+    return 'unknown', total, None, reason
+
+
+def _solver_in(strategy, ctx):
+    if strategy == 'simp':
+        return z3.Then(z3.Tactic('simplify', ctx=ctx), z3.Tactic('smt', ctx=ctx), ctx=ctx).solver()
+    s = z3.Solver(ctx=ctx)
+    if strategy == 'noematch':
+        s.set('smt.ematching', False)
+    return s
+
+
+def portfolio(pc, goal, timeout_ms, zseed):
+    import threading
+    if os.environ.get('VERIF_CVC_SEQUENTIAL') or len(STRATEGIES) < 2:
         reasons = []
         for strat in STRATEGIES:
-            r, dt, s = _run(strat, pc, goal, timeout_ms * frac, zseed)
-            total += dt
+            r, dt, s = _run(strat, pc, goal, timeout_ms / max(1, len(STRATEGIES)), zseed)
             if r == z3.unsat:
-                return 'unsat', total, None, strat
+                return 'unsat', None, strat
             if r == z3.sat:
-                return 'sat', total, s.model(), strat
+                return 'sat', s.model(), strat
             reasons.append('%s:%s' % (strat, s.reason_unknown()))
-        if rnd_no == 0:
-            # refutation by evaluation (DESIGN.md 2.7): sample models of the hypotheses alone and evaluate the goal under
-            # them.  A model of the hypotheses that falsifies the goal IS a counter-model, found without search (a wrong
-            # rotation constant in 20 ARX rounds is out of reach for SAT search but is refuted by almost any assignment).
-            t0 = time.time()
-            m = sample_refute(pc, goal, seed)
-            total += time.time() - t0
-            if m is not None:
-                return 'sat', total, m, 'evaluation'
-    return 'unknown', total, None, ','.join(reasons)
+        return 'unknown', None, ','.join(reasons)
+    hyp = z3.And(*pc) if pc else z3.BoolVal(True)
+    jobs = []
+    for strat in STRATEGIES:
+        ctx = z3.Context()
+        s = _solver_in(strat, ctx)
+        s.set('timeout', int(timeout_ms))
+        if zseed:
+            s.set('random_seed', zseed)
+        s.add(hyp.translate(ctx))
+        s.add(z3.Not(goal).translate(ctx))
+        jobs.append([strat, ctx, s, None])
+    done = threading.Event()
+
+    def work(job):
+        try:
+            job[3] = str(job[2].check())
+        except z3.Z3Exception:
+            job[3] = 'unknown'
+        if job[3] in ('unsat', 'sat'):
+            done.set()
+
+    threads = [threading.Thread(target=work, args=(j,), daemon=True) for j in jobs]
+    for t in threads:
+        t.start()
+    deadline = time.time() + timeout_ms / 1000.0 + 5
+    while time.time() < deadline and not done.is_set() and any(t.is_alive() for t in threads):
+        done.wait(0.05)
+    for j in jobs:
+        if j[3] is None:
+            try:
+                j[1].interrupt()
+            except Exception:      # noqa
+                pass
+    for t in threads:
+        t.join(10)
+    for j in jobs:
+        if j[3] == 'unsat':
+            return 'unsat', None, j[0]
+    for j in jobs:
+        if j[3] == 'sat':
+            # the model lives in the worker's context: find it again in the main context with the strategy that found it
+            r, dt, s = _run(j[0], pc, goal, timeout_ms, zseed)
+            if r == z3.sat:
+                return 'sat', s.model(), j[0]
+            if r == z3.unsat:
+                return 'unsat', None, j[0]
+    return 'unknown', None, ','.join('%s:%s' % (j[0], j[3] or 'timeout') for j in jobs)
 
 
 def sample_refute(pc, goal, seed, tries=6):
@@ -905,7 +961,7 @@ def verify_function(tu, reg, fname, prop='CVC', timeout_ms=None, kinds=None, rep
                     secs += dt
                     continue
             for piece in pieces:
-                r1, dt1, model1, reason1 = check(ob.pc, piece, timeout_ms, prefer='noematch' if ob.cases else None)
+                r1, dt1, model1, reason1 = check(ob.pc, piece, timeout_ms)
                 dt += dt1
                 if TRACE:
                     print('      [trace] %s.%s path %d: %s %.2fs (%s) %s' % (kind, name, ob.path, r1, dt1, reason1, str(piece)[-120:].replace('\n', ' ')))
